@@ -498,7 +498,8 @@ bool StepScript(ScriptExecutionEnvironment& env, CScript::const_iterator& pc, CS
                 case OP_MOD:
                 case OP_LSHIFT:
                 case OP_RSHIFT:
-                    return StepExtended(env, pc, local_script);
+                    if (!StepExtended(env, pc, local_script)) return false;
+                    break; // fall out of the switch so that the stack size limit below is checked as for every other opcode
                 //
                 // Push value
                 //
